@@ -144,6 +144,7 @@ def handle (kind : String) (fs : List (String × String)) : String :=
   | "cut" => handleOracle fs "cut"
   | "cap" => handleCap fs
   | "ppf" => handlePpf fs
+  | "rrs" => Swim.Drv.Msgpack.handleRrs fs
   | _ => "PARSE kind"
 
 end Swim.Drv.C09
